@@ -366,6 +366,7 @@ def main():
     # ---------------------------------------------------------------- direct predicates on the implementation's own bytes
     npool = len(POOL)
     dist = {}
+    crash_seen = {}
     mlines, mexpect = [], []
 
     def viol(key, desc, cs, nreq, got):
@@ -376,7 +377,10 @@ def main():
         if obs is None:
             # a request crashed or hung: find it (only for the first few such cases; the others are counted)
             dist["crashed-or-hung cases"] = dist.get("crashed-or-hung cases", 0) + 1
-            if dist["crashed-or-hung cases"] > 6:
+            sus = tuple(sorted(set("overflow" if sum(len(cstr(pad(b, 13))) for b in x.bms) + max(0, len(x.bms) - 1) > 39 else
+                                   "many" if sum(1 for b in x.bms if user_exists(b)) > 4 else "-" for x in cs.reqs)))
+            crash_seen[sus] = crash_seen.get(sus, 0) + 1
+            if crash_seen[sus] > 3:
                 return None, 0
             st = line.split()[0]
             n = 0
@@ -388,11 +392,12 @@ def main():
                 good = o
             r = cs.reqs[n - 1] if n >= 1 else None
             what = "crash" if st == "1" else "hang"
+            verb = "panics" if st == "1" else "does not return"
             kind = "reload"
             if r is not None:
                 kind = "moderator-list-overflow" if sum(len(cstr(pad(b, 13))) for b in r.bms) + max(0, len(r.bms) - 1) > 39 else \
                        "more-than-4-existing-moderators" if sum(1 for b in r.bms if user_exists(b)) > 4 else "other"
-            viol("%s:%s" % (what, kind), "board creation %ss (request %d of the case: name %r, moderators %r)" % (what, n, r.name if r else None, r.bms if r else None), cs, n, line[:200])
+            viol("%s:%s" % (what, kind), "board creation %s (request %d of the case: name %r, moderators %r)" % (verb, n, r.name if r else None, r.bms if r else None), cs, n, line[:200])
             return good, n
         init = [s.bytes() for s in cs.slots]
         o0 = obs[0]
@@ -445,6 +450,9 @@ def main():
                         viol("name-rule:accepted-%s" % klass, "request %d: malformed name %r accepted as board %d (directories created: %r)" % (nreq, raw, b, [d.decode("latin-1") for d in o.dirs if d not in prev.dirs]), cs, nreq, b)
                 if existing:
                     viol("duplicate-accepted", "request %d: %r accepted although slot %d already carries %r" % (nreq, raw, existing[0] + 1, cstr(prev.cache[existing[0]][:13])), cs, nreq, b)
+                if parent_ok and not (r.cls - 1 < prev.bnum and cstr(prev.cache[r.cls - 1][:13])):
+                    # observation, not a violation: the code's notion of a valid parent is 1 <= bid <= MAX_BOARD
+                    dist["note: accepted under a parent bid that names no board"] = dist.get("note: accepted under a parent bid that names no board", 0) + 1
                 if not parent_ok:
                     viol("invalid-parent-accepted", "request %d accepted under parent %d" % (nreq, r.cls), cs, nreq, b)
                 if not rights:
